@@ -32,6 +32,7 @@ fn main() {
         "C03" => props::c03::run(tier),
         "C04" => props::c04::run(tier),
         "C08" => props::c08::run(tier),
+        "C09" => props::c09::run(tier),
         "C10" => props::c10::run(tier),
         "C14" => props::c14::run(tier),
         "C15" => props::c15::run(tier),
